@@ -1891,7 +1891,11 @@ fn parse_num_radix<const RADIX: u8>(s: &str) -> Result<f64, ParseNumRadixError> 
         16 => 128 / 4,
         _ => unreachable!(),
     };
-    let num_digits_128 = s.len().min(max_digits_128);
+    // Split at a character boundary: `s` may contain non-ASCII characters.
+    let num_digits_128 = s
+        .char_indices()
+        .nth(max_digits_128)
+        .map_or(s.len(), |(i, _)| i);
 
     let mut number = 0u128;
     for chr in s[..num_digits_128].chars() {
